@@ -74,9 +74,18 @@ def hand_made_tuple_rows():
                            tb=tb, rb=rb, lb=lb, entry="manual", rows="tuple")
 
 
+# accepted break probabilities whose repr has a three-digit exponent, down to the smallest double (kept out of
+# harness/boards.PROBS: with p = 5e-324 the written rows (p, 1 - p = 1.0) sum to more than 1 as rationals, which the
+# exact solvers of other properties cannot take; the rule model here only compares labels)
+TINY_PROBS = (1e-100, 1e-120, 3e-150, 1.5e-300, 5e-324)
+
+
 @st.composite
 def sampled(draw, max_side=6):
     b = draw(boards.boards(max_len=max_side, max_wid=max_side))
+    if draw(st.integers(0, 5)) == 0:
+        b = dict(b)
+        b[draw(st.sampled_from(("tb", "rb", "lb")))] = draw(st.sampled_from(TINY_PROBS))
     if draw(st.integers(0, 3)) == 0:
         b = dict(b, entry="manual")
         if draw(st.booleans()):
@@ -102,8 +111,11 @@ def from_generator(draw):
     width = draw(st.integers(1, 7))
     fd = draw(st.booleans())
     p = draw(st.sampled_from((0.1, 0.3, 0.5, 0.9)))
-    return dict(gen=[seed, length, width, p, draw(st.sampled_from((1, 6, 20, 10 ** 7))), fd],
-                tb=draw(boards.PROBS), rb=draw(boards.PROBS), lb=draw(boards.PROBS))
+    g = dict(gen=[seed, length, width, p, draw(st.sampled_from((1, 6, 20, 10 ** 7))), fd],
+             tb=draw(boards.PROBS), rb=draw(boards.PROBS), lb=draw(boards.PROBS))
+    if draw(st.integers(0, 5)) == 0:
+        g[draw(st.sampled_from(("tb", "rb", "lb")))] = draw(st.sampled_from(TINY_PROBS))
+    return g
 
 
 @st.composite
